@@ -1217,7 +1217,8 @@ pub fn shard(part: Part, seed: u64, tier: &str, from: u64, to: u64, out: &str) -
             }
         }
     }
-    // fill in the hex of the problem inputs lazily (only those we keep)
+    // stop the watchdog (this function also runs inside the parent process, to re-capture inputs)
+    HEART.with(|h| h.borrow_mut().take());
     std::fs::write(format!("{}.json", out), serde_json::to_string(&sh).unwrap()).expect("write shard");
     crate::runner::write_hashes(std::path::Path::new(&format!("{}.ilv", out)), &distinct);
     0
